@@ -161,6 +161,8 @@ class HistoryHarness(Harness):
                         for sk in list(world.sockets.values()):
                             if not sk.closed and sk.connected:
                                 sk.rx.append(("err", _errno.ECONNREFUSED) if sk.is_dgram else ("eof",))
+                                if hasattr(scen, "delivered_count"):
+                                    scen.delivered_count[0] += 1
                         await asyncio.sleep(1)
                         obs.steps.append(("open after peer_eof", len([t for t in transports()
                                                                         if not getattr(t, "_sock", None) or not t._sock.is_dgram])))
@@ -303,14 +305,17 @@ class HistoryHarness(Harness):
                 if st[0] == "open after peer_eof" and st[1] != 0:
                     fail("a connection dropped by the peer while idle is still held as an open transport", str(st[1]))
             for r, kind in zip(reqs, steps_req):
+                if kind == "answer" and r["outcome"].startswith("response") and len(r["tx"]) != 1 and \
+                        not any(q < r["j"] and k > r["delivered_before"] for (t, q, k) in obs.delivered_reqs):
+                    fail("the request after an earlier outcome needed a retransmission against a peer that answers at once",
+                         f"request {r['j']}: {len(r['tx'])} transmissions")
                 # (a datagram of an earlier request that arrives while this one is under way cannot be told from its own
                 # answer on these framings: C06/C07's subject, not connection management)
                 if kind == "answer" and not r["outcome"].startswith("response"):
-                    conds = [_ge(t, r["t0"]) for (t, q) in obs.delivered_reqs if q < r["j"]]
-                    if any(c is True for c in conds):
+                    # stale = sent by the peer for an earlier request and not yet consumed when this request started
+                    if any(q < r["j"] and k > r["delivered_before"] for (t, q, k) in obs.delivered_reqs):
                         continue
-                    zs = [c for c in conds if c is not False]
-                    check(z3.Or(zs) if zs else False,
+                    check(False,
                           "the request after an earlier outcome does not work against an answering peer", r["outcome"])
             if scen.keep_alive:
                 for a, b, i in zip(reqs, reqs[1:], range(len(reqs))):
